@@ -416,3 +416,19 @@ func ParamActuals(p *Prog, prm *ssa.Parameter) []Actual {
 	}
 	return out
 }
+
+// AssertOf returns the type assertion a value is the result of: an unchecked `x.(T)`, or the value
+// component of a comma-ok assertion (the variable bound by a type-switch clause).
+func AssertOf(v ssa.Value) *ssa.TypeAssert {
+	switch x := v.(type) {
+	case *ssa.TypeAssert:
+		if !x.CommaOk {
+			return x
+		}
+	case *ssa.Extract:
+		if ta, ok := x.Tuple.(*ssa.TypeAssert); ok && ta.CommaOk && x.Index == 0 {
+			return ta
+		}
+	}
+	return nil
+}
